@@ -21,7 +21,7 @@
 //@ requires#budget [C03]
 //    (held total as read when the payment was initiated; the held total only grows until resolve)
       req.max_fee_msat as int <= old(w).received_read - old(w).amount && old(w).received_read <= old(w).received
-//@ requires#delay [C04]
+//@ requires#delay [C04,C19]
 //    lowest expiry among the HTLCs held when the payment was initiated - height known - safety delta
       req.max_cltv_delta as int <= max0(old(w).min_expiry_read - old(w).height_read - old(w).cltv_delta as int)
       && req.max_cltv_delta as int <= old(w).pol_delta as int
